@@ -175,9 +175,7 @@ func (w *world) stepEthCall(r *Rng) stepOut {
 	}
 	w.side.Count("ethcall:" + outcome)
 	w.side.Count("call:" + strings.SplitN(s.name, "/", 2)[0])
-	if s.predictable {
-		w.remember("EthCall", pathEvm+"EthCall", req, a)
-	}
+	w.remember("EthCall", pathEvm+"EthCall", req, a)
 	predicted := false
 	if s.predictable && a.code == 0 && si >= 0 && (gasCap == 0 || gasCap >= gas) && r.Chance(70) {
 		res, _ := w.deliverOne(s, si, gas)
@@ -301,9 +299,7 @@ func (w *world) stepEstimate(r *Rng) stepOut {
 
 	// production path
 	prod := w.twice(r, "EstimateGas", cs, func() answer { return w.query(pathEvm+"EstimateGas", req, 0) })
-	if s.predictable {
-		w.remember("EstimateGas", pathEvm+"EstimateGas", req, prod)
-	}
+	w.remember("EstimateGas", pathEvm+"EstimateGas", req, prod)
 	w.keeperPure("EstimateGas", cs, func(ctx sdk.Context) {
 		var rq evmtypes.EthCallRequest
 		require.NoError(w.t, rq.Unmarshal(req))
@@ -508,9 +504,7 @@ func (w *world) stepTrace(r *Rng) stepOut {
 		outcome = "ok"
 	}
 	w.side.Count("tracetx:" + outcome + ":" + tracer)
-	if s.predictable {
-		w.remember("TraceTx", pathEvm+"TraceTx", req, a)
-	}
+	w.remember("TraceTx", pathEvm+"TraceTx", req, a)
 	predicted := false
 	if s.predictable && a.code == 0 && plainStruct(cfg) && r.Chance(70) {
 		var resp evmtypes.QueryTraceTxResponse
